@@ -128,6 +128,19 @@ class H:
 
 
 @dataclass
+class HR:
+    """recursive holder: the recursion analysis of HR runs user callables (lazy getters)"""
+
+    o: Op1
+    nxt: Optional["HR"] = None
+
+
+class TwoReq:
+    def __init__(self, a, b):
+        self.a, self.b = a, b
+
+
+@dataclass
 class H3:
     o: Op3
 
@@ -313,7 +326,7 @@ UnionIS = Union[int, str]
 UnionSI = Union[str, int]
 
 TYPES: Dict[str, Any] = {
-    "P": P, "Q": Q, "C": C, "N": N, "Op1": Op1, "Op1Sub": Op1Sub, "Op2": Op2, "Op3": Op3, "H": H, "H3": H3,
+    "P": P, "Q": Q, "C": C, "N": N, "Op1": Op1, "Op1Sub": Op1Sub, "Op2": Op2, "Op3": Op3, "H": H, "HR": HR, "H3": H3,
     "SOF": SOF, "SOD": SOD, "HS": HS, "TN": TN, "TwoTN": TwoTN, "Animal": Animal, "Cat": Cat, "Zoo": Zoo,
     "AL": AL, "OR": OR, "V1": V1, "V1Sub": V1Sub, "DR": DR, "S1": S1, "S1Sub": S1Sub, "FS": FS, "Rec": Rec,
     "U": U, "L": L, "RawInit": RawInit, "FL": FL, "FLInner": FLInner, "LPet": LPet, "ListP": List[P], "ListInt": List[int], "DictStrInt": Dict[str, int], "PosInt": PosInt,
@@ -356,8 +369,14 @@ def op1_from_list(l: List[int]) -> Op1:
     return Op1(sum(l))
 
 
+@callback("c09_op1_lazy_getter")
 def _op1_lazy_getter():
     return Conversion(op1_from_list, source=List[int], target=Op1)
+
+
+@callback("c09_op1_lazy_ser_getter")
+def _op1_lazy_ser_getter():
+    return Conversion(op1_to_str, source=Op1, target=str)
 
 
 @callback("c09_op1_to_int")
@@ -605,6 +624,11 @@ def _():
     deserializer(lazy=_op1_lazy_getter, target=Op1)
 
 
+@cfg("serializer.Op1.lazy_str", "conv_s")
+def _():
+    serializer(lazy=_op1_lazy_ser_getter, source=Op1)
+
+
 @cfg("reset_deserializers.Op1", "conv_d")
 def _():
     reset_deserializers(Op1)
@@ -664,6 +688,40 @@ def _():
     from apischema.conversions import as_names
 
     as_names(Color, _upper)
+
+
+def _raising_aliaser(s: str) -> str:
+    raise ValueError("aliaser refuses " + s)
+
+
+@cfg("as_str.TwoReq.failing", "failing")
+def _():
+    from apischema.conversions import as_str
+
+    # aborted registration: the serializer half cannot be resolved for a two-argument class
+    as_str(TwoReq)
+    serializer(Conversion(_tworeq_bad, source=TwoReq))
+
+
+def _tworeq_bad(x, y):  # a converter must have at most one parameter without default
+    return x
+
+
+@cfg("as_names.Color.failing", "failing")
+def _():
+    from apischema.conversions import as_names
+
+    as_names(Color, _raising_aliaser)  # raises while building the names enum
+
+
+@cfg("deserializer.failing", "failing")
+def _():
+    deserializer(_tworeq_bad)  # rejected: two required parameters, no types
+
+
+@cfg("validator.failing", "failing")
+def _():
+    validator("nope nope", owner=V1)(lambda: None)  # rejected: a validator needs a parameter
 
 
 # -- object fields
@@ -1088,6 +1146,7 @@ _des("Op1.str", "Op1", "five", "conv_d")
 _des("Op1.list", "Op1", [1, 2], "conv_d")
 _des("H", "H", {"o": 1, "os": ["a", 2]}, "conv_d")
 _des("ListOp1", "ListOp1", [1, "b"], "conv_d")
+_des("HR", "HR", {"o": [1, 2], "nxt": {"o": 3}}, "conv_d")
 _des("Op3", "Op3", 3, "op3")
 _des("H3", "H3", {"o": 4}, "op3")
 _des("SOF.a", "SOF", {"a": 1}, "fields")
@@ -1207,6 +1266,7 @@ _ser("Op1.sub_instance", "Op1", lambda: Op1Sub(7), "conv_s")
 _ser("Op2", "Op2", lambda: Op2(8), "conv_s", "op2")
 _ser("L", "L", lambda: L("b", Color.BLUE), "enum")
 _ser("H", "H", lambda: H(Op1(1), [Op1(2), Op1Sub(3)]), "conv_s")
+_ser("HR", "HR", lambda: HR(Op1(1), HR(Op1(2))), "conv_s")
 _ser("Op3", "Op3", lambda: Op3(3), "op3")
 _ser("H3", "H3", lambda: H3(Op3(4)), "op3")
 _ser("SOF", "SOF", lambda: SOF(1, "x"), "fields")
@@ -1290,7 +1350,7 @@ _gobs("gqlexec.echo", [gq_echo], "{ gqEcho(q: {req: 3}) }", "alias", "coerce", "
 
 for _t, _tags in [
     ("P", ("alias", "addprops", "schemareg", "typename")), ("Q", ("alias",)), ("C", ()), ("N", ("schemareg",)),
-    ("Op1", ("conv_d", "conv_s")), ("H", ("conv_d", "conv_s")), ("H3", ("op3",)), ("SOF", ("fields",)),
+    ("Op1", ("conv_d", "conv_s")), ("H", ("conv_d", "conv_s")), ("HR", ("conv_d", "conv_s")), ("H3", ("op3",)), ("SOF", ("fields",)),
     ("SOD", ("fields",)), ("HS", ("fields",)), ("TwoTN", ("typename", "schemareg")), ("Animal", ("disc", "typename")),
     ("Zoo", ("disc", "typename")), ("AL", ("alias",)), ("OR", ("order",)), ("DR", ("depreq",)),
     ("S1", ("serialized", "order")), ("S1Sub", ("serialized",)), ("Rec", ("alias", "addprops")), ("U", ()),
@@ -1331,4 +1391,4 @@ def related(cfg_name: str, obs_name: str) -> bool:
 
 # callbacks that run at *compile* time of an observation (fault points)
 FAULT_CALLBACKS = ["c09_camel", "c09_upper", "c09_sof_fields_callable", "c09_op1_from_int",
-                   "c09_op1_from_str", "c09_op1_to_int"]
+                   "c09_op1_from_str", "c09_op1_to_int", "c09_op1_lazy_getter", "c09_op1_lazy_ser_getter"]
